@@ -163,3 +163,86 @@ def run_lockstep(res, pid, seed, tier):
     res.cov["traces_validated_against_impl"] += stats["lockstep_logs"]
     res.cov["evaluations"] += stats["lockstep_atomic_steps"]
     return stats
+
+
+ABANDON_PCS = None
+
+def run_abandon_lockstep(res, pid, seed, tier, envs=(None,)):
+    """schedule-lockstep tie (S) of the abandonment / adoption model: the real allocator runs mode `exit` of s_conc.c under the
+    deterministic scheduler with the step log of harness/s_conc_abandon.h (every hooked access to segment->thread_id, to the
+    segment's bit of arena->blocks_abandoned, to subproc->abandoned_count, acquire / failed try / release of abandoned_os_lock and
+    abandoned_os_visit_lock, pushes on the page thread-free lists, plain stores to thread_id, freed segments, API call brackets);
+    the extracted Coq model Model/Abandon.v must be able to take, for every record, a transition of the same thread with the
+    same location and the same old -> new value, and its boolean invariant inv_b is evaluated after every step
+    (ocaml mode abandon-lockstep; the abstractions are listed in the header of ocaml/mode_abandon.ml)."""
+    exe = build(res)
+    if exe is None:
+        return None
+    okb, txt = vlib.ocaml_build()
+    if not okb:
+        res.violation("model-build", "extracted model does not build: " + txt[-1200:]); return None
+    big = tier == "thorough"
+    per_env = 40 if big else 10
+    jobs = []
+    for ei, env in enumerate(envs):
+        for i in range(per_env):
+            jobs.append((seed * 100000 + 500 + i, 2 + (i % 4), (300 if big else 200) if i % 3 else 100, env))
+    stats = collections.Counter(); hist = collections.Counter(); first = None
+    def one(j):
+        sd, nt, nops, env = j
+        cmd = [exe, "exit", str(sd), str(nt), str(nops), "alog"]
+        e = vlib.clean_env()
+        if env: e.update(env)
+        try:
+            p = subprocess.run(cmd, stdout=subprocess.PIPE, stderr=subprocess.PIPE, preexec_fn=vlib._limits, timeout=180, env=e, text=True, errors="replace")
+            rc, out = p.returncode, p.stdout
+        except subprocess.TimeoutExpired as ex:
+            o = ex.stdout or b""
+            rc, out = 124, (o.decode(errors="replace") if isinstance(o, bytes) else o) + "\nV livelock harness timeout\n"
+        logtxt = "\n".join(l for l in out.splitlines() if not l.startswith(("END", "V ", "O ", "D-", "D arena")))
+        rc2, mout = vlib.model_replay("abandon-lockstep", logtxt + "\n", timeout=600)
+        return j, rc, out, mout
+    with concurrent.futures.ThreadPoolExecutor(max_workers=int(vlib.JOBS)) as ex:
+        for j, rc, out, mout in ex.map(one, jobs):
+            stats["lockstep_logs"] += 1
+            m = re.search(r'STAT abandon-lockstep lines=(\d+) atomic_steps=(\d+) inv_b_checks=(\d+) model_steps=(\d+) max_state_set=(\d+) final_state_set=(\d+) segments=(\d+) freed=(\d+) '
+                          r'skipped_owner_loads=(\d+) stale_ands=(\d+) stutter_loads=(\d+) owner_frees=(\d+) field_loads=(\d+) ignored=(\d+)', mout)
+            if m:
+                for k, v in zip(("log_lines", "lockstep_atomic_steps", "lockstep_inv_b_checks", "model_transitions", None, None, "segments", "segments_freed",
+                                 "abstracted_owner_loads_of_thread_id", "abstracted_stale_bit_prechecks", "abstracted_heap_empty_loads", "owner_private_segment_frees",
+                                 "cursor_field_loads_checked", "ignored_oscount_alock_accesses"), m.groups()):
+                    if k: stats[k] += int(v)
+                stats["max_state_set"] = max(stats["max_state_set"], int(m.group(5)))
+            hm = re.search(r'^HIST (.*)$', mout, re.M)
+            if hm:
+                for kv in hm.group(1).split():
+                    k, v = kv.split("="); hist[k] += int(v)
+            mm = [l for l in mout.splitlines() if l.startswith("MISMATCH")]
+            d = re.search(r'DONE (\d+) (\d+)', mout)
+            if mm or not d or int(d.group(2)) != 0:
+                stats["lockstep_mismatching_logs"] += 1
+                if first is None:
+                    idx = mout.find("MISMATCH")
+                    first = (j, (mout[idx:idx + 1500] if idx >= 0 else mout[-600:]), parse(rc, out)[0])
+    if first:
+        (sd, nt, nops, env), text, viol = first
+        envs_txt = " ".join("%s=%s" % kv for kv in (env or {}).items())
+        # a disagreement between the interleaving model and the real allocator's accesses; a concrete failing input exists only when
+        # an implementation-side oracle fired in the same schedule
+        bad = [(k, t) for k, t in viol if k in KINDS.get(pid, {}).get("exit", ())]
+        wit = None
+        if bad:
+            wit = "# schedule replay: %s build/s_conc exit %d %d %d\n# oracle: %s %s" % (envs_txt, sd, nt, nops, bad[0][0], bad[0][1])
+        res.violation("corr:abandon-lockstep", "the abandonment model (coq/Model/Abandon.v) cannot follow the real allocator's accesses (schedule: %s build/s_conc exit %d %d %d alog | "
+                      "build/ocaml/replay abandon-lockstep; %d of %d logs disagree): %s"
+                      % (envs_txt, sd, nt, nops, stats["lockstep_mismatching_logs"], stats["lockstep_logs"], text[:1200]), witness=wit,
+                      replay_name="%s_abandon_lockstep_%d.sched" % (pid, sd))
+    d = res.cov.setdefault("input_distribution", {})
+    d["abandon_lockstep"] = dict(stats)
+    d["abandon_lockstep_transitions_by_pc"] = dict(hist)
+    d["abandon_lockstep_pcs_never_reached"] = sorted(k for k, v in hist.items() if v == 0)
+    d["abandon_lockstep_env_variants"] = [" ".join("%s=%s" % kv for kv in (e or {}).items()) or "(default)" for e in envs]
+    res.cov["traces_validated_against_impl"] += stats["lockstep_logs"]
+    res.cov["evaluations"] += stats["lockstep_atomic_steps"]
+    res.add_samples(["s_conc exit %d %d %d alog | replay abandon-lockstep" % (j[0], j[1], j[2]) for j in jobs[:2]])
+    return stats
